@@ -302,6 +302,14 @@ func C20(ctx *core.Ctx) {
 					if fv, ok := a.(*ssa.FreeVar); ok {
 						a = ssax.Strip(ssax.FreeVarBinding(fv))
 					}
+					// the worker body is a function started with the WaitGroup as an argument
+					if pa, ok := a.(*ssa.Parameter); ok {
+						for i, bp := range body.Params {
+							if bp == pa && i < len(spawn.Call.Args) {
+								a = ssax.Strip(spawn.Call.Args[i])
+							}
+						}
+					}
 					return a == wg
 				}
 				mn, mx := ssax.CountOnPaths(body, nil, isDone)
@@ -519,6 +527,31 @@ func c20Drain(ctx *core.Ctx, r *RT, d *ssa.Function) {
 	if barrierC != nil {
 		c, _ := ssax.AsCall(barrierC)
 		var cbChan ssa.Value
+		// a method value bound to the channel (barrier.release): the method closes its receiver
+		var boundChan ssa.Value
+		unconv := func(v ssa.Value) ssa.Value {
+			for {
+				v = ssax.Strip(v)
+				ct, ok := v.(*ssa.ChangeType)
+				if !ok {
+					return v
+				}
+				v = ct.X
+			}
+		}
+		if mc, isMC := ssax.Strip(c.Common.Args[1]).(*ssa.MakeClosure); isMC && len(mc.Bindings) == 1 {
+			for _, cb := range funcValues(mc) {
+				closesRecv := false
+				ssax.Instrs(cb, func(in ssa.Instruction) {
+					if cc, ok := ssax.AsCall(in); ok && cc.FullName() == "builtin.close" && len(cb.Params) > 0 && unconv(cc.Common.Args[0]) == ssa.Value(cb.Params[0]) {
+						closesRecv = true
+					}
+				})
+				if closesRecv {
+					boundChan = unconv(mc.Bindings[0])
+				}
+			}
+		}
 		for _, cb := range funcValues(c.Common.Args[1]) {
 			ssax.Instrs(cb, func(in ssa.Instruction) {
 				if cc, ok := ssax.AsCall(in); ok && cc.FullName() == "builtin.close" {
@@ -533,7 +566,13 @@ func c20Drain(ctx *core.Ctx, r *RT, d *ssa.Function) {
 		}
 		isAwait := func(in ssa.Instruction) bool {
 			u, ok := in.(*ssa.UnOp)
-			if !ok || u.Op != token.ARROW || cbChan == nil {
+			if !ok || u.Op != token.ARROW {
+				return false
+			}
+			if boundChan != nil && unconv(u.X) == boundChan {
+				return true
+			}
+			if cbChan == nil {
 				return false
 			}
 			if ld, ok := u.X.(*ssa.UnOp); ok && ld.X == cbChan {
@@ -542,7 +581,7 @@ func c20Drain(ctx *core.Ctx, r *RT, d *ssa.Function) {
 			return false
 		}
 		mn, _ := ssax.CountOnPathsTo(d, barrierC, isAwait, successRet)
-		ctx.Check(cbChan != nil && mn >= 1, "C20.R1", dn+" › barrier awaited", r.IPos(barrierC), "receive from the channel the barrier callback closes, on every success path", "the drain returns without waiting for the barrier: handler callbacks may still enqueue after the queue is closed")
+		ctx.Check((cbChan != nil || boundChan != nil) && mn >= 1, "C20.R1", dn+" › barrier awaited", r.IPos(barrierC), "receive from the channel the barrier callback closes, on every success path", "the drain returns without waiting for the barrier: handler callbacks may still enqueue after the queue is closed")
 	}
 }
 
